@@ -118,6 +118,15 @@ func (e *emitter) run(m *method, recv opnd, ops []opnd, opt caseSpec) {
 		cs.alpha = 1.75
 	}
 	e.x.run(&cs)
+	if m.errOp > 0 || m.toStyle {
+		// error paths: the same case with an ill conditioned and with a
+		// singular operand / factorization
+		for _, vc := range []int{vcIll, vcSingular} {
+			c2 := cs
+			c2.vclass = vc
+			e.x.run(&c2)
+		}
+	}
 }
 
 // sharedOp builds an operand of kind k over window w of the shared backing.
